@@ -268,8 +268,11 @@ class H(explore.Harness):
         conns = tuple((c.cid, c.client_open, c.peer_open, tuple(self.responder.get(c.cid, [])), c.transport.is_closing() if c.transport else None) for c in self.net.conns)
         nt = self.loop.next_timer()
         timers = tuple(sorted(round(h._when - self.loop.time(), 6) for h in self.loop._scheduled if not h._cancelled))
+        from vt import canon as _c
+
+        generic = _c.canon(self.conn, depth=3, skip=("owner", "_loop", "_connect_lock", "pairing_data", "_connector"))
         return (prs, ts, conns, timers, self.partial is not None, len(self.loop._ready), self.preempt, tuple(self._seen_events()), self.conn.closing, self.conn.transport is None,
-                self.conn._concurrency_limit._value, len(self.net.pending()))
+                self.conn._concurrency_limit._value, len(self.net.pending()), generic)
 
     def finish(self):
         out = []
